@@ -161,7 +161,7 @@ def _explain_o1(ctx):
     ctx.floor('C09.R3', len(n_finders), 6, 'container cause finders interpreted')
 
 
-def container_finder_runs(ctx, is_collection=True, is_sequence=True):
+def container_finder_runs(ctx, is_collection=True, is_sequence=True, origin_ok=True, length=5):
     """(finder, module, tag, is_tuple_fixed, n, kids, log of operations on the checked object) for every container cause
     finder × is_random (× object length for fixed tuples), interpreted under the O1 strategy.  Shared with C03.R3."""
     from sa.fold import AObj, FuncVal, Inst, Sym, _Abort, _Raise, _call_function
@@ -281,8 +281,8 @@ def container_finder_runs(ctx, is_collection=True, is_sequence=True):
     class _Found(AObj):
         _track_attribute_stores = True
 
-        def __init__(self):
-            self.cause_str_or_none = None
+        def __init__(self, why=None):
+            self.cause_str_or_none = why
 
     class _Child(AObj):
         def __init__(self, kw):
@@ -348,7 +348,9 @@ def container_finder_runs(ctx, is_collection=True, is_sequence=True):
     for q in ('beartype._util.text.utiltextansi.color_type', 'beartype._util.text.utiltextrepr.represent_object',
               'beartype._util.text.utiltextrepr.represent_pith', 'beartype._util.text.utiltextprefix.prefix_pith_type'):
         F.stubs[q] = lambda e, a, k: '<text>'
-    F.stubs['beartype._check.error._nonpep.errnonpeptype.find_cause_type_instance_origin'] = lambda e, a, k: _Found()
+    # the shallow test of the origin type: scripted (an object of the right type, or of a wrong one)
+    F.stubs['beartype._check.error._nonpep.errnonpeptype.find_cause_type_instance_origin'] = \
+        lambda e, a, k: _Found(None if origin_ok else 'is not an instance of the origin type')
     F.stubs['beartype._check.cls.hint.data.hintdataerror.HintDataError'] = lambda e, a, k: ('hint-data', a)
     F.stubs['beartype._util.hint.pep.proposal.pep646.pep484585646tuple.is_hint_pep484585646_tuple_empty'] = lambda e, a, k: False
     confenum = ctx.repo.mod('beartype._conf.confenum')
@@ -380,12 +382,13 @@ def container_finder_runs(ctx, is_collection=True, is_sequence=True):
             # the wrapper hands the explanation the draw it made — or None when it made none (is_random off, or no production
             # of the hint tree needed one): both are explored; a production that needs the draw asserts it got one
             for is_random, random_int in ((True, 7), (True, None), (False, None)):
-                lens = (5, kids) if is_tuple_fixed else (5,)
+                lens = (length, kids) if is_tuple_fixed else (length,)
                 for n in lens:
                     del log[:]
                     cause = _ACause(sign, kids, n, O1, is_random, random_int)
                     try:
-                        _call_function(F, finder, [cause], {}, 1)
+                        res = _call_function(F, finder, [cause], {}, 1)
+                        log.append(('result', 'cause-found' if getattr(res, 'cause_str_or_none', None) is not None else 'no-cause'))
                     except _Raise as ex:
                         if is_random and random_int is None:
                             continue      # this production needs the draw: the scenario does not arise
